@@ -148,9 +148,9 @@ def build(ctx):
 
     for cn, cls, sh, se in CLASSES:
         P = (lambda cls, se: lambda X: pose(cls, X, se))(cls, se)
-        checked = cn in ('SO2', 'SE2')      # SO2.inv / SE2.inv construct their result WITH the validity check
-        smp1 = (lambda cn: lambda rng: [sample_group(cn, rng)])(cn) if checked else None
-        smp2 = (lambda cn: lambda rng: [sample_group(cn, rng), sample_group(cn, rng)])(cn) if checked else None
+        # since /repo 1c511ed SO2.inv / SE2.inv build with check=False like the 3-D classes: no validity path, and the
+        # Sym==Num runs use generic (non-group) matrices for every trace
+        smp1 = smp2 = None
         X, Y, Z = ('x', sh), ('y', sh), ('z', sh)
         tr(f'tr_{cn}_mul', [X, Y], lambda x, y, P=P: A(P(x) * P(y)))
         tr(f'tr_{cn}_id_r', [X], lambda x, P=P, cls=cls: A(P(x) * cls()))
@@ -190,29 +190,14 @@ def build(ctx):
         g.model(f'm_UQ_pow_{pname(n)}', [Qq], 'V4', coq=f'SM.Model.C02_Pow.pw_UQ_{pname(n)}', module='Model.C02_Pow',
                 num_fn=lambda q, n=n: (uq(q) ** n).vec, sampler=u1, tol=1e-9)
 
-    # ---- path conditions of the checked constructors inside SO2.inv / SE2.inv, emitted as definitions
-    for cn, sh in (('SO2', 'M22'), ('SE2', 'M33')):
-        path = g.paths[f'tr_{cn}_inv']
-        ok = (len(path) == 2 and isinstance(path[0][0], sympy.StrictLessThan) and path[0][1] is True
-              and isinstance(path[1][0], sympy.StrictGreaterThan) and path[1][1] is True)
-        if not ok:
-            ctx.fail(f'gen:path:{cn}.inv', f"the comparisons made by {cn}.inv() on symbols are not the expected "
-                     f"[norm(RR'-I) < tol, det(RR') > 0]: {path}", {'path': [str(p) for p in path]}, no_input=True)
-            continue
-        (r1, _), (r2, _) = path
-        terms = [coq_expr(r1.lhs), coq_expr(r1.rhs), coq_expr(r2.lhs), coq_expr(r2.rhs)]
-        g.extra.append((f'pc_{cn}_inv', sh,
-                        f"Definition pc_{cn}_inv (x : {coq_type(sh)}) : V4 T :=\n  let '{input_pattern('x', sh)} := x in\n  ({', '.join(terms)}).\n"))
-    # every other recorded comparison must be one of: the same validity check (SO2/SE2 traces that call .inv()),
-    # the unit-norm validity test / zero-norm test of the UnitQuaternion constructor (decided: unit, not zero)
+    # ---- recorded comparisons: none may occur in a pose-class trace (since /repo 1c511ed SO2.inv / SE2.inv no longer
+    # re-validate; a validity check coming back would make the inverse theorems conditional again -> fail closed);
+    # for UnitQuaternion only the unit-norm validity test / zero-norm test of the constructor (decided: unit, not zero)
     for name, path in g.paths.items():
-        if name in ('tr_SO2_inv', 'tr_SE2_inv'):
-            continue
         for rel, truth in path:
             unit_test = isinstance(rel.lhs, sympy.Abs) and rel.lhs.args[0].is_Add      # | |q| - 1 | < tol
             uq_ok = name.startswith('tr_UQ_') and isinstance(rel, sympy.StrictLessThan) and (truth is unit_test)
-            chk_ok = name.startswith(('tr_SO2_', 'tr_SE2_')) and truth is True
-            if not (uq_ok or chk_ok):
+            if not uq_ok:
                 ctx.fail(f'gen:path:{name}', f"unexpected comparison while tracing {name}: {rel} -> {truth}",
                          {'relational': str(rel), 'truth': truth}, no_input=True)
     return g
@@ -378,30 +363,21 @@ ALGS = [MatAlg('SO2', SO2, 2, False), MatAlg('SE2', SE2, 2, True), MatAlg('SO3',
 # expression trees: ('leaf', i) | ('id',) | ('mul', a, b) | ('div', a, b) | ('inv', a) | ('pow', a, n)
 
 
-def ev_impl(alg, t, leaves, diag=None):
-    """evaluate with the class-level operators of the implementation.  diag (SO2/SE2 only) records whether an
-    operand of .inv() -- a value the library computed itself -- fails the validity check that SO2.inv / SE2.inv
-    apply to their result (base.isR with 100 eps), which is the root cause of the known `inv-revalidates` finding"""
+def ev_impl(alg, t, leaves):
+    """evaluate with the class-level operators of the implementation"""
     k = t[0]
     if k == 'leaf':
         return leaves[t[1]]
     if k == 'id':
         return alg.cls()
-
-    def note(x):
-        if diag is not None and alg.name in ('SO2', 'SE2'):
-            Rb = np.asarray(x.A, float)[:2, :2]
-            if not base.isR(Rb.T):
-                diag['inv_check_fails'] = float(np.linalg.norm(Rb.T @ Rb - np.eye(2)))
-        return x
     if k == 'mul':
-        return ev_impl(alg, t[1], leaves, diag) * ev_impl(alg, t[2], leaves, diag)
+        return ev_impl(alg, t[1], leaves) * ev_impl(alg, t[2], leaves)
     if k == 'div':
-        return ev_impl(alg, t[1], leaves, diag) / note(ev_impl(alg, t[2], leaves, diag))
+        return ev_impl(alg, t[1], leaves) / ev_impl(alg, t[2], leaves)
     if k == 'inv':
-        return note(ev_impl(alg, t[1], leaves, diag)).inv()
+        return ev_impl(alg, t[1], leaves).inv()
     if k == 'pow':
-        return ev_impl(alg, t[1], leaves, diag) ** t[2]
+        return ev_impl(alg, t[1], leaves) ** t[2]
     raise ValueError(k)
 
 
@@ -533,20 +509,8 @@ def check_pair(ctx, alg, law, lt, rt, raw, tol=TOL):
             L = alg.unwrap(ev_impl(alg, lt, leaves))
             Rr = alg.unwrap(ev_impl(alg, rt, leaves))
     except Exception as ex:
-        diag = {}
-        for tt in (lt, rt):
-            try:
-                ev_impl(alg, tt, leaves, diag)
-            except Exception:
-                pass
-        if 'inv_check_fails' in diag:
-            ctx.fail(f"oracle:{alg.name}:inv-revalidates:raises", f"{alg.name}: evaluating {tree_str(lt)} raises {type(ex).__name__}: {ex}; "
-                     f"the operand of .inv() is a value computed by the library whose orthogonality defect {diag['inv_check_fails']:.3g} "
-                     f"exceeds the 100 eps of the validity check inside {alg.name}.inv()",
-                     dict(rep, exception=f"{type(ex).__name__}: {ex}", operand_defect=diag['inv_check_fails']))
-        else:
-            ctx.fail(f"{key}:raises:{type(ex).__name__}", f"{alg.name}: evaluating {tree_str(lt)} == {tree_str(rt)} raises "
-                     f"{type(ex).__name__}: {ex}", dict(rep, exception=f"{type(ex).__name__}: {ex}"))
+        ctx.fail(f"{key}:raises:{type(ex).__name__}", f"{alg.name}: evaluating {tree_str(lt)} == {tree_str(rt)} raises "
+                 f"{type(ex).__name__}: {ex}", dict(rep, exception=f"{type(ex).__name__}: {ex}"))
         return
     d = alg.dist(L, Rr) if np.all(np.isfinite(L)) and np.all(np.isfinite(Rr)) else float('inf')
     dref = alg.dist(L, ref) if np.all(np.isfinite(L)) else float('inf')
@@ -640,11 +604,19 @@ def oracle_groups(ctx):
                              f"(allowed {TOL:g} * {scale:g})", {'T_hex': hexl(T), 'residual': d})
         # random expression trees, depth <= 5, against the word they denote (only `*` and leaf inverses)
         if alg.name in ('SO2', 'SE2'):
-            # deterministic instance of the known `inv-revalidates` finding: ((X**-8)**-8).inv()
+            # regression cases of the defect repaired by /repo 1c511ed (SO2.inv / SE2.inv re-validated, at 100 eps, values
+            # the library had computed itself with check=False: ((X**-8)**-8).inv() raised).  Own law name, so that a
+            # recurrence is reported under a key no old known-finding entry can match.
             c, s_ = math.cos(-3.14), math.sin(-3.14)
             X0 = np.array([[c, -s_], [s_, c]]) if alg.name == 'SO2' else np.array([[c, -s_, 1.0], [s_, c, 2.0], [0, 0, 1.0]])
-            t0 = ('inv', ('pow', ('pow', ('leaf', 0), -8), -8))
-            check_pair(ctx, alg, 'tree', t0, word_tree(word(t0)), [X0, X0.copy(), X0.copy()])
+            for t0 in (('inv', ('pow', ('pow', ('leaf', 0), -8), -8)),
+                       ('inv', ('pow', ('pow', ('pow', ('leaf', 0), 8), 8), 4)),
+                       ('div', ('leaf', 1), ('pow', ('pow', ('leaf', 0), -8), -8))):
+                check_pair(ctx, alg, 'inv-of-drifted-value', t0, word_tree(word(t0)), [X0, X0.copy(), X0.copy()])
+            for _ in range(ctx.n(30, 600)):
+                Xr = alg.sample(rng)
+                t0 = ('inv', ('pow', ('pow', ('leaf', 0), int(rng.choice([-8, 8]))), int(rng.choice([-8, 8]))))
+                check_pair(ctx, alg, 'inv-of-drifted-value', t0, word_tree(word(t0)), [Xr, Xr.copy(), Xr.copy()])
         k = 0
         while k < NT:
             t = rand_tree(rng, 5)
